@@ -29,7 +29,7 @@ THEOREMS = {
     "C09": [S + "fireTable_unique", S + "fire_rename'", S + "fireOf_rename'", S + "val_rename'", S + "val_run_rename'", S + "fireTrace_rename'", S + "WellRanked.rename'",
             S + "solution_extends", S + "fireTable_least", S + "gc_transparent", "SodiumVerif.Sched.transaction_result_unique", "SodiumVerif.Sched.sched_result_unique",
             G + "collect_sound_total"],
-    "C10": [S + n for n in ["late_building_txn", "late_later_txn", "late_never_invents", "listenerOutputs_eq", "unlisten_stops", "unlisten_deactivates", "listen_stream", "listen_cell_initial", "listen_cell_later",
+    "C10": [S + n for n in ["quiet_stmt", "quiet_closeTxn", "quiet_runItems", "inactive_stays_inactive", "inactive_forever", "unlisten_never_called_again", "size_monotone", "late_building_txn", "late_later_txn", "late_never_invents", "listenerOutputs_eq", "unlisten_stops", "unlisten_deactivates", "listen_stream", "listen_cell_initial", "listen_cell_later",
                             "strong_listener_survives_drop", "stmt_unlisten"]],
     "C11": [S + n for n in ["fire_substLoop", "fireTrace_substLoop", "val_run_substLoop", "stepTxn_substLoop", "fire_substCLoop", "fireTrace_substCLoop_wf",
                             "val_run_substCLoop_wf", "sloop_fires", "cloop_fires'", "sloop_unclosed_silent", "cloop_value", "double_loop_panics", "sample_before_loop_panics", "stmt_sloopclose", "stmt_sample",
@@ -47,7 +47,7 @@ THEOREMS = {
                             "sendAll_get_untouched", "sink_fires", "val_stepTxn_csink"]],
     "C17": ["SodiumVerif.LazyM.thunk_at_most_once", "SodiumVerif.LazyM.run_stable", S + "taken_value", S + "stmt_force"] +
            ["SodiumVerif.LazyHeap." + n for n in ["Inv_reach", "forceC_spec", "step_spec", "runs_le_one", "value_is_den", "force_returns_den", "force_time_independent",
-                                                  "lookup_runOps", "clones_agree", "force_idempotent", "alloc_preserves_den", "den_stable"]],
+                                                  "lookup_runOps", "clones_agree", "force_idempotent", "alloc_preserves_den", "den_stable", "of_value_never_runs", "runs_iff_forced"]],
     "C18": [S + n for n in ["route_fires", "route_eq_filter_twin", "contains_dup", "reach_resolved", "route_history", "route_silent_without_source",
                             "route_value_is_source_value", "route_delivers", "route_same_key_twins", "route_keys_both", "route_keys_independent"]],
 }
@@ -59,7 +59,7 @@ MODULES = {
     "C06": ["SodiumVerif.Props.C06", "SodiumVerif.Props.StructMem"],
     "C07": ["SodiumVerif.Props.C07", "SodiumVerif.Props.C06", "SodiumVerif.Props.StructMem"],
     "C09": ["SodiumVerif.Props.C09", "SodiumVerif.Props.C09b", "SodiumVerif.Props.C06"],
-    "C10": ["SodiumVerif.Props.C10", "SodiumVerif.Props.C10b"],
+    "C10": ["SodiumVerif.Props.C10", "SodiumVerif.Props.C10b", "SodiumVerif.Props.C10c"],
     "C11": ["SodiumVerif.Props.C11", "SodiumVerif.Props.C11b", "SodiumVerif.Props.C11c"],
     "C12": ["SodiumVerif.Props.C12", "SodiumVerif.Props.C12c"],
     "C13": ["SodiumVerif.Props.C13", "SodiumVerif.Props.Expand"],
